@@ -51,6 +51,7 @@ type Result struct {
 	Exhaustive  bool             `json:"exhaustive"`
 	Notes       []string         `json:"notes"`
 	WallS       float64          `json:"wall_s"`
+	Cover       string           `json:"cover,omitempty"` // hex of the statement-hit vector (instrumented build)
 }
 
 // Ctx is the per-worker exploration context.
@@ -308,9 +309,16 @@ func (c *Ctx) Result() *Result {
 	return r
 }
 
+// Cover is set by the worker before WriteResult (statement-hit vector).
+var Cover []uint8
+
 // WriteResult dumps the result as JSON.
 func (c *Ctx) WriteResult(path string) error {
-	b, err := json.Marshal(c.Result())
+	r := c.Result()
+	if Cover != nil {
+		r.Cover = hex.EncodeToString(Cover)
+	}
+	b, err := json.Marshal(r)
 	if err != nil {
 		return err
 	}
